@@ -234,6 +234,10 @@ func rangeDefined(s *slot, a, b []byte) bool {
 				return false
 			}
 		}
+	case *rawCmpKind:
+		if len(a) == 0 || len(b) == 0 {
+			return false // an empty bound is not a key of this codec; the library gives it no stated meaning
+		}
 	case *alphaKind:
 		if len(b) == 0 && len(a) != 0 {
 			es := s.model.Sorted()
@@ -438,6 +442,10 @@ func (e *Engine) apply(s *slot, op Op) error {
 				mutating = false
 			}
 		}
+	}
+	if _, isRaw := k.(*rawCmpKind); isRaw && (op.Op == "insert" || op.Op == "move") && (len(op.K) == 0 || (op.Op == "move" && len(op.K2) == 0)) {
+		e.fact("excluded_empty_key_rawcmp")
+		return nil
 	}
 	if op.Op == "insert" && k.Family() == "collation" {
 		if ck := k.(*collKind); ck.ktype == "runes" && !validRunes(op.K) {
@@ -939,7 +947,7 @@ func derivedProbes(k Kind, es []*Entry, limit int) [][]byte {
 	for _, en := range es {
 		r := en.Raw
 		switch kk := k.(type) {
-		case *alphaKind, *collKind:
+		case *alphaKind, *collKind, *rawCmpKind:
 			for _, cut := range []int{0, 1, len(r) / 2, 9, 10, 11, len(r) - 1} {
 				if cut >= 0 && cut < len(r) {
 					add(r[:cut])
